@@ -46,8 +46,12 @@ ASSUMPTIONS = [
     'remote value once sent)',
     'during the reconnect the device stays reachable (a provisioning request that fails is not retried by the code: the '
     'pending mark is cleared all the same)',
-    'the remote value queue of a port is empty when its value is written offline (the master needs 4 failed exchanges, > 15 s, '
-    'to declare a slave offline; the queue drains at one element per 50 ms tick)',
+    'the remote value queue of a port is empty when its value is written offline (NOT guaranteed by the code: switching '
+    'listening / polling off makes the slave offline at once; reachable through the API, witness '
+    'corpus/C13/value-written-offline-with-queued-remote-values.json.proposed, repair fixes/C13-offline-write-supersedes-queued-values.diff; '
+    'generated scripts keep to the assumption until the repair is committed)',
+    'the device attributes uptime / date are not edited offline on a polled slave (defect: '
+    'corpus/C13/pending-date-overwritten-by-poll-probe.json.proposed, fixes/C13-pending-date-kept-on-device-poll.diff)',
     '"before the master refreshes its mirror": before GET /ports (and, for a listening slave, GET /device); a polled slave is '
     'probed with GET /device first and that answer passes through the guarded _handle_device_update',
 ]
@@ -527,7 +531,8 @@ def still_pending(s):
 
 def e2e_problems(job, res):
     out = []
-    mode_poll = job['mode'] == 'poll'
+    # (PATCH /devices/<name> listen_enabled probes the device with GET /device itself: only GET /ports counts as refresh then)
+    mode_poll = job['mode'] == 'poll' or any(op[1] == 'mp' for op in job['ops'])
     for ep in episodes(job, res):
         for e in ep['offline_edits']:
             for kind, d in pending_problems(e):
@@ -550,7 +555,8 @@ def e2e_problems(job, res):
 def spec_cases(pool, job, res):
     """Coq pscases: [(text, descr)]"""
     out = []
-    mode_poll = job['mode'] == 'poll'
+    # (PATCH /devices/<name> listen_enabled probes the device with GET /device itself: only GET /ports counts as refresh then)
+    mode_poll = job['mode'] == 'poll' or any(op[1] == 'mp' for op in job['ops'])
     for ep in episodes(job, res):
         for e in ep['offline_edits']:
             k, a = e['kind'], e['args']
